@@ -523,6 +523,49 @@ class Harness:
             raise EvalError(f"state of length {state.shape[0]}, expected {n}")
         return state.data[ie], Arr([state.data[i] for i in seg], (3, 3))
 
+    # ---- stop criterion of the scalar solve
+    def settings_roles(self):
+        """(record type name, {role: field}) of the settings record of the root finder, found by interpreting its public factory
+        `get_settings` on one probe symbol per parameter: the field that receives the parameter documented (and proved by C17 O4/O6)
+        to bound |f| at convergence is the 'residual' tolerance, the one that bounds |step| the 'step' tolerance."""
+        if "_settings_roles" in self.__dict__:
+            return self._settings_roles
+        gs = self.ctx.repo.find(f"{SRF}:get_settings")
+        srf = self.ctx.repo.module(SRF)
+        if gs is None or srf is None:
+            raise EvalError(f"{SRF}:get_settings not found")
+        params = gs.params()
+        I, _, _ = self.interp()
+        rec = I.call(I.module_value(srf, "get_settings"), [], {p: atom("@set:" + p) for p in params})
+        if not isinstance(rec, Record):
+            raise EvalError(f"get_settings returned {rec!r}")
+        field_of = {}
+        for f, v in zip(rec.fields, rec.values):
+            for p in params:
+                if isinstance(v, Dual) and d_equal(v, atom("@set:" + p)):
+                    field_of.setdefault(p, []).append(f)
+        roles = {}
+        for role, p in (("residual", "r_tol"), ("step", "x_tol")):
+            if len(field_of.get(p, [])) != 1:
+                raise EvalError(f"the field of the settings record that receives get_settings({p}=...) was not identified: {field_of.get(p)}")
+            roles[role] = field_of[p][0]
+        self._settings_roles = (rec.tname, tuple(rec.fields), roles)
+        return self._settings_roles
+
+    def solver_tolerances(self, run, solve):
+        """(residual tolerance, step tolerance) of one recorded scalar solve, as symbolic values."""
+        st = solve.settings
+        tname, fields, roles = self.settings_roles()
+        if not isinstance(st, Record) or st.tname != tname or tuple(st.fields) != fields:
+            raise EvalError(f"the settings handed to the root finder are {st!r}, not the record built by get_settings")
+        out = []
+        for role in ("residual", "step"):
+            v = run.interp.num(st.get(roles[role]))
+            if not isinstance(v, Dual):
+                raise EvalError(f"the {role} tolerance of the scalar solve is {v!r}")
+            out.append(v)
+        return tuple(out)
+
     def residual(self, run, solve, e):
         """value of the recorded residual at e (evaluated under the decisions of the run that recorded it)"""
         I = run.interp
